@@ -167,7 +167,7 @@ pub enum Obj {
 impl Obj {
     pub fn make(dec: bool, kind: Kind, eng: Eng, c: Cfg) -> Result<Obj, Error> {
         // None, Some(Work::new()) and Some(Work::default()) are all "no working space yet"
-        let variant = (c.k + c.r + c.b / 2) % 3;
+        let variant = c.k.wrapping_add(c.r).wrapping_add(c.b / 2) % 3;
         Ok(if dec {
             let work = match variant {
                 0 => None,
